@@ -162,6 +162,67 @@ Section MemoModel.
                 let '(st'', l) := memo_run st' r in (st'', a :: l)
     end.
 
+  (* ---------------------------------------------------------------- lookups whose caller cancels its context
+     The caller takes k elements from the result channel, cancels the context and stops receiving.  What the code does:
+       hit : `select { case <-ctx.Done(): return nil; case out <- o }`  - the first k cached elements, NO error;
+       miss: `select { case <-ctx.Done(): return errors.New("context cancelled"); case out <- o: append }` - the first k
+             elements of the forwarded lookup, the error, and NOTHING is stored (the function returns before the store).
+             The forwarded lookup is not drained: when it still has two or more undelivered elements (one is in the
+             memoizer's hand and is dropped) it stays blocked on its channel for ever - `leak` below; with
+             storage/memory it keeps the graph's read lock and every later write blocks.
+     When the answer has no more than k elements the channel is closed before the caller cancels: an ordinary lookup.
+     Exist does not look at the context. *)
+  Inductive creq := CPlain (r : req) | CCancel (q : query) (k : nat).
+
+  Definition handle_step_c (cancelled : err) (s : istate) (h : handle) (r : creq)
+    : istate * handle * answer * bool :=
+    match r with
+    | CPlain r => (handle_step s h r, false)
+    | CCancel q k =>
+        if is_exist q then (handle_step s h (Read q), false)
+        else
+          match probe h q with
+          | Some (AList v e) =>
+              if Nat.ltb k (length v) then (s, h, AList (firstn k v) None, false) else (s, h, AList v e, false)
+          | Some a => (s, h, a, false)
+          | None =>
+              let '(s', a) := inner_step s (h_gid h) (Read q) in
+              match a with
+              | AList l e =>
+                  if Nat.ltb k (length l)
+                  then (s', h, AList (firstn k l) (Some cancelled), Nat.leb (k + 2) (length l))
+                  else (s', store_after h q a, a, false)
+              | _ => (s', store_after h q a, a, false)
+              end
+          end
+    end.
+
+  Inductive chop := COpen (g : gid) | CDo (h : nat) (r : creq).
+
+  Definition memo_step_c (cancelled : err) (st : mstate) (o : chop) : mstate * answer * bool :=
+    match o with
+    | COpen g => (mkM (m_inner st) (m_handles st ++ [fresh g]), AAck None, false)
+    | CDo i r =>
+        match nth_error (m_handles st) i with
+        | None => (st, ABadHandle, false)
+        | Some h =>
+            let '(s', h', a, lk) := handle_step_c cancelled (m_inner st) h r in
+            (mkM s' (upd_nth i h' (m_handles st)), a, lk)
+        end
+    end.
+
+  (* a history ends at the first leak (the wrapped store is wedged from then on); the flag says whether it did *)
+  Fixpoint memo_run_c (cancelled : err) (st : mstate) (ops : list chop) : mstate * list answer * bool :=
+    match ops with
+    | [] => (st, [], false)
+    | o :: r => let '(st', a, lk) := memo_step_c cancelled st o in
+                if lk then (st', [a], true)
+                else let '(st'', l, lk') := memo_run_c cancelled st' r in (st'', a :: l, lk')
+    end.
+
+  (* what the caller of a cancelled lookup is entitled to: the first k elements of the wrapped store's answer *)
+  Definition elems_of (a : answer) : list elem := match a with AList l _ => l | _ => [] end.
+
   (* the reference: the same history applied to the wrapped store directly, handle = graph id *)
   Record rstate := mkR { r_inner : istate; r_gids : list gid }.
 
@@ -439,6 +500,11 @@ Arguments ABadHandle {elem err}.
 Arguments Write {wreq query}.
 Arguments Read {wreq query}.
 Arguments HOpen {gid wreq query}.
+Arguments COpen {gid wreq query}.
+Arguments CDo {gid wreq query}.
+Arguments CPlain {wreq query}.
+Arguments CCancel {wreq query}.
+Arguments elems_of {elem err}.
 Arguments HDo {gid wreq query}.
 Arguments Idle {wreq query elem err}.
 
